@@ -99,7 +99,7 @@ class StoreCheck:
     """Boilerplate for a STORE check module: sharded BFS over named universes on given backends."""
 
     def __init__(self, pid, universes, oracle, state_oracle=None, backends=("sql", "kv"), depths=None,
-                 plen=None, session_kw=None, rule=""):
+                 plen=None, session_kw=None, rule="", linear=None):
         self.pid = pid
         self._universes = universes
         self._U = None
@@ -110,6 +110,15 @@ class StoreCheck:
         self.plen = plen or {"quick": 1, "thorough": 2}
         self.session_kw = session_kw or {}
         self.rule = rule
+        # one-process histories: {"quick": depth or {universe: depth}, ...}; every sequence of that many submissions run from an empty
+        # store WITHOUT restoring the store in between, so that whatever the relay keeps in memory between events is part of the state
+        self.linear = linear or {}
+
+    def linear_depth(self, tier, un):
+        d = self.linear.get(tier)
+        if isinstance(d, dict):
+            return d.get(un, d.get("*"))
+        return d
 
     def U(self):
         if self._U is None:
@@ -129,6 +138,10 @@ class StoreCheck:
                 d = self.depth_for(tier, un)
                 for p in shard_prefixes(list(uni), min(self.plen[tier], d)):
                     out.append((backend, un, p, d))
+                ld = self.linear_depth(tier, un)
+                if ld:
+                    for first in uni:
+                        out.append((backend, un, ["@linear", first], ld))
         return out
 
     def describe(self, case):
@@ -142,6 +155,8 @@ class StoreCheck:
         uni = self.U()[un]
         sess = seq.session(backend, **self.session_kw)
         so = self.state_oracle(backend, uni, sess) if self.state_oracle else None
+        if prefix and prefix[0] == "@linear":
+            return self.run_linear(case, sess, uni, so)
         res = bfs(sess, uni, prefix, depth, self.oracle(backend, uni, sess), so)
         cid = "%s|U=%s|P=%s|depth=%d" % (backend, un, ",".join(prefix), depth)
         viol = []
@@ -160,12 +175,57 @@ class StoreCheck:
                            "max_depth": res["max_depth"]},
                 "extra": {"bfs_max_depth_%d" % res["max_depth"]: 1}}
 
+    def run_linear(self, case, sess, uni, so):
+        import itertools
+
+        backend, un, prefix, depth = case
+        first = prefix[1]
+        judge = self.oracle(backend, uni, sess)
+        names = list(uni)
+        viol = []
+        seenv = set()
+        digests = set()
+        steps = 0
+        nh = 0
+        for rest in itertools.product(names, repeat=depth - 1):
+            hist = (first,) + rest
+            nh += 1
+            sess.reset()
+            pre = sess.dump()
+            done = []
+            for nm in hist:
+                r = sess.submit(uni[nm])
+                post = sess.dump()
+                steps += 1
+                vs = list(judge(tuple(done), pre, nm, r, post))
+                if so is not None:
+                    vs += list(so(tuple(done) + (nm,), post) or [])
+                for v in vs:
+                    key = (v["clause"], v["sig"], tuple(done), nm)
+                    if key in seenv:
+                        continue
+                    seenv.add(key)
+                    viol.append({"case": "%s|U=%s" % (backend, un), "clause": v["clause"], "sig": "%s@1p:%s" % (v["sig"], ",".join(done + [nm])),
+                                 "detail": v["detail"] + " | one-process history=" + ",".join(done + [nm])})
+                done.append(nm)
+                pre = post
+            digests.add(sdigest(pre))
+        cid = "%s|U=%s|1P=%s|depth=%d" % (backend, un, first, depth)
+        return {"id": cid, "viol": viol, "outcome": sorted(digests), "outcome_is_set": True, "states": len(digests), "transitions": steps, "evals": steps,
+                "nontrivial": len(digests) > 1, "desc": self.describe(case),
+                "sample": {"case": cid, "one_process_histories": nh, "steps": steps},
+                "extra": {"one_process_histories": nh, "one_process_steps": steps}}
+
     def coverage(self, tier, agg):
+        lin = ""
+        if self.linear.get(tier):
+            lin = (" One-process histories: every sequence of %s submissions from an empty store without restoring the store in between "
+                   "(the writer thread / storage object keep whatever they keep in memory), same oracles at every step." % (self.linear[tier],))
         return {
             "rule": self.rule + " | BFS over store states (state = canonical dump, dedup by dump inside a shard); transition = "
                     "websocket EVENT of each universe member incl. re-submission, background work run to idle; a case = one "
                     "shard (fixed first submissions); non-trivial = shard reaches >1 state; states = sum over shards, "
-                    "distinct_outcomes = distinct state digests over all shards.",
+                    "distinct_outcomes = distinct state digests over all shards." + lin,
             "depth_bound": self.depths[tier],
             "universes": {un: sorted(u) for un, u in self.U().items()},
             "backends": list(self.backends),
